@@ -96,7 +96,7 @@ PROPS["C18"] = {
 PROPS["C19"] = {
     "engine": "crash", "engine_name": "crash", "level": "fault_enumeration",
     "budget": {"quick": 0, "thorough": 0},
-    "rule": "15 scenarios (Set with old value absent / 10 / 37 / 9000 bytes x new value 1 / 37 / 5000 bytes; SaveEntity overwrite and create; the configuration rewrite of a second NewIPTransport start that bumps the version from 9 to 10); for each, a ptrace tracer records the N file-system syscalls the operation issues under the storage directory and then kills the child before the k-th, for every k = 1..N (plus the complete run); after each kill a fresh store must return the old or the new value in full for every key the operation rewrites, every other key untouched, and the pairing database must load; distinct = distinct (scenario, crash point)",
+    "rule": "quick: 15 scenarios, thorough: 83 scenarios (Set with old value absent / 10 / 37 / 9000 bytes x new value 1 / 37 / 5000 bytes, in thorough old in {absent,0,1,10,37,4095,4096,4097,9000,70000} x new in {0,1,37,4095,4096,4097,5000,70000}; SaveEntity overwrite and create; the configuration rewrite of a second NewIPTransport start that bumps the version from 9 to 10); for each, a ptrace tracer records the N file-system syscalls the operation issues under the storage directory and then kills the child before the k-th, for every k = 1..N (plus the complete run); after each kill a fresh store must return the old or the new value in full for every key the operation rewrites, every other key untouched, the pairing database must load, and completed follow-up writes (3 bytes, 6000 bytes, empty; a new entity) through the fresh store must read back exactly; distinct = distinct (scenario, crash point)",
     "real": ["hc util.fileStorage, db.database, hc.NewIPTransport + Config.save built from /repo's working tree, running as a real child process on a real directory", "the Linux kernel's file system"],
     "stub": ["process crash = SIGKILL delivered by a ptrace tracer at the entry of the k-th file-system syscall under the directory"],
     "assumptions": ["crash model: process kill. Completed syscalls survive (page cache), the interrupted one did not happen; power loss (lost un-synced writes) is not what C19 states and is not modelled",
